@@ -119,8 +119,19 @@ def _same(a, b):
     return a is b or (isinstance(a, Tok) and isinstance(b, Tok) and a.name == b.name)
 
 
+class _Externals:
+    """The library functions group.py uses, taken from the modules that DEFINE them.  Stubs are keyed by the function object, so they
+    apply whichever way group.py reaches the function (`from m import f` or `import m` … `m.f`): the import style is not behaviour."""
+
+    def __getattr__(self, name):
+        import importlib
+        home = dict(base58_decode='pytezos.crypto.encoding', base58_encode='pytezos.crypto.encoding', forge_base58='pytezos.michelson.forge',
+                    blake2b_32='pytezos.crypto.key', forge_operation_group='pytezos.operation.forge')[name]
+        return getattr(importlib.import_module(home), name)
+
+
 def install(e):
-    from pytezos.operation import group as G
+    G = _Externals()
     from pytezos.operation.group import OperationGroup
     e.stub(OperationGroup.__dict__['forge'], lambda eng, a, k: Tok('forged_hex'))
     e.stub(G.base58_decode, lambda eng, a, k: GB([C('B58DEC', repr(a[0]))]))
@@ -240,7 +251,7 @@ def _forged_term(branch, contents):
 
 def install_real_forge(e):
     """as install(), but the REAL OperationGroup.forge runs (a memo inside it is visible); only forge_operation_group is uninterpreted"""
-    from pytezos.operation import group as G
+    G = _Externals()
     e.stub(G.forge_operation_group, lambda eng, a, k: GForged(_forged_term(a[0]['branch'], a[0]['contents'])))
     e.stub(G.base58_decode, lambda eng, a, k: GB([C('B58DEC', repr(a[0]))]))
     e.stub(G.forge_base58, lambda eng, a, k: GB([C('RAWSIG', repr(a[0]))]))
